@@ -93,7 +93,27 @@ func loadCtx(repoDir string, patterns []string) (*Ctx, error) {
 	}
 	// index functions and global stores
 	c.storesTo = map[*ssa.Global]bool{}
-	for fn := range ssautil.AllFunctions(prog) {
+	allFns := ssautil.AllFunctions(prog)
+	for _, sp := range prog.AllPackages() {
+		if !strings.HasPrefix(sp.Pkg.Path(), repoMod) {
+			continue
+		}
+		for _, m := range sp.Members {
+			tn, ok := m.(*ssa.Type)
+			if !ok {
+				continue
+			}
+			for _, t := range []types.Type{tn.Type(), types.NewPointer(tn.Type())} {
+				ms := prog.MethodSets.MethodSet(t)
+				for i := 0; i < ms.Len(); i++ {
+					if fn := prog.MethodValue(ms.At(i)); fn != nil && fn.Synthetic == "" {
+						allFns[fn] = true
+					}
+				}
+			}
+		}
+	}
+	for fn := range allFns {
 		if fn.Pkg == nil || !strings.HasPrefix(fn.Pkg.Pkg.Path(), repoMod) {
 			continue
 		}
